@@ -381,6 +381,8 @@ def serialize_to_json(elements: Iterable[Any],
                 for k, v in obj.items():
                     if isinstance(k, QName):
                         k = str(k)
+                    if isinstance(v, list) and not v:
+                        v = None  # the empty sequence is serialized as null
                     map_items.append((k, v))
 
                     if k not in map_keys:
